@@ -953,6 +953,14 @@ class SmtLibParser(object):
         tokens.add_extra_token(")")
         stack[-1].append(lambda: term)
 
+    def _is_user_function(self, name: str) -> bool:
+        """Whether the script declared or defined a function called name"""
+        bound = self.cache.get(name)
+        if isinstance(bound, FNode):
+            return bound.is_symbol() and \
+                bound.symbol_type().is_function_type()
+        return callable(bound)
+
     def get_expression(self, tokens: Tokenizer) -> Optional[FNode]:
         """
         Returns the pysmt representation of the given parsed expression
@@ -968,7 +976,7 @@ class SmtLibParser(object):
                         stack.append([])
                         tk = tokens.consume()
                     if tk in self.interpreted and not \
-                       (tk in self.NON_STANDARD and self.cache.get(tk) is not None):
+                       (tk in self.NON_STANDARD and self._is_user_function(tk)):
                         fun = self.interpreted[tk]
                         fun(stack, tokens, tk)
                     else:
